@@ -115,6 +115,14 @@ def alphabet(seed_):
     # serialisations (make + save): the document must not depend on what was rendered before
     def render(name, kind, **save):
         A[name] = {'api': 'render', 'content': symobs.enc_content('Render me'), 'kw': {'make': {'micro': False}, 'kind': kind, 'save': save}}
+    # symbols that are created, serialised and DROPPED inside one call (the next symbol may get the same address: caches keyed by id())
+    def render_of(name, content, make_kw, kind, **save):
+        A[name] = {'api': 'render', 'content': symobs.enc_content(content), 'kw': {'make': make_kw, 'kind': kind, 'save': save}}
+    for tag, content in (('a', gen.alnum(r, 200)), ('b', gen.alnum(r, 200)), ('c', gen.latin1(r, 150))):
+        render_of(f'drop10{tag}_ppm', content, {'version': 10}, 'ppm')
+        render_of(f'drop10{tag}_iterv', content, {'version': 10}, 'iterv')
+        render_of(f'drop10{tag}_png', content, {'version': 10}, 'png', finder_dark='red', alignment_dark='blue')
+        render_of(f'drop12{tag}_svg', content, {'version': 12}, 'svg', data_dark='navy', timing_dark='green')
     render('pam_alpha_int1', 'pam', dark=(10, 20, 30, 1))
     render('pam_alpha_float1', 'pam', dark=(10, 20, 30, 1.0))
     render('pam_light_int1', 'pam', light=(250, 250, 250, 1))
@@ -162,6 +170,8 @@ def run_call(c):
     if c['api'] == 'render':       # make + save: the result is the document
         kw = c['kw']
         qr = segno.make(symobs.dec_content(c['content']), **kw['make'])
+        if kw['kind'] == 'iterv':      # the verbose module-type iteration as the document
+            return repr([bytes(min(x, 255) & 255 for x in row) + bytes((x >> 8) & 255 for x in row) for row in qr.matrix_iter(verbose=True, border=1)]).encode()
         buf = io.BytesIO() if kw['kind'] in BINARY else io.StringIO()
         save = {k: (tuple(v) if isinstance(v, list) else v) for k, v in kw['save'].items()}
         qr.save(buf, kind=kw['kind'], **save)
@@ -634,7 +644,7 @@ def run_c15(rep, tier):
     rep.notes['alphabet_size'] = len(A)
     names = sorted(A)
     # (c) sequential histories: all ordered pairs (thorough: plus triples sample), each in a freshly forked process
-    small = [n for n in names if n not in ('v20', 'v20b', 'v10', 'v10b') and not n.startswith('big_') and not n.startswith('sparse_')]
+    small = [n for n in names if n not in ('v20', 'v20b', 'v10', 'v10b') and not n.startswith('big_') and not n.startswith('sparse_') and not n.startswith('drop')]
     tasks = []
     for a in names:
         for b in names:
@@ -650,8 +660,16 @@ def run_c15(rep, tier):
         for b in bigs:
             if a != b and (a.startswith('big_v') != b.startswith('big_v') or tier == 'thorough'):
                 tasks.append(([a, b], A, ref, False))
+    drops = [n for n in names if n.startswith('drop')]
+    for a in drops:
+        for b in drops:
+            if a != b:
+                tasks.append(([a, b], A, ref, False))
+    for _ in range(20 if tier == 'quick' else 300):
+        tasks.append(([r.choice(drops) for _ in range(r.randint(3, 6))], A, ref, False))
     # (c3) soak: the same call 160 (thorough: 600) times in one process - nothing is used up, nothing accumulates
-    soak_tasks = [(n, A, ref, 160 if tier == 'quick' else 600) for n in names if A[n]['api'] == 'render' or n in ('hello_auto', 'm1', 'kanji', 'parts_mixed', 'seq_sc3')]
+    soak_tasks = [(n, A, ref, (160 if tier == 'quick' else 600) if not n.startswith('drop') else 12) for n in names
+                  if A[n]['api'] == 'render' or n in ('hello_auto', 'm1', 'kanji', 'parts_mixed', 'seq_sc3')]
     # (d) thread schedules from TLC, mapped onto line events, on pairs of calls (same size symbols first)
     pairs = [('v5', 'v5b'), ('hello_L', 'hello_noboost_L'), ('hello_mask0', 'hello_mask3'), ('byte17', 'u17_utf8_eci'), ('m3', 'm4q'), ('digits', 'digits_qr'),
              ('v10', 'v10b'), ('parts_user_alice', 'user'), ('kanji', 'hanzi'), ('hello_M', 'v5'), ('seq_sc3', 'seq_sc3_q'), ('sparse_v12a', 'sparse_v12b')]
